@@ -156,18 +156,40 @@ macro_rules! mm {
         }
     };
 }
-mm!(c18_mm_2leaf_s0_a, [(true, 0), (true, 0)], [0, 1, 2, 3], 0, 4);
-mm!(c18_mm_2leaf_s0_b, [(true, 0), (true, 0)], [5, 256, 257, usize::MAX], 0, 4);
-mm!(c18_mm_2leaf_s2_a, [(true, 0), (true, 0)], [0, 1, 2, 3], 2, 4);
-mm!(c18_mm_2leaf_s2_b, [(true, 0), (true, 0)], [5, 256, 257, usize::MAX], 2, 4);
-mm!(c18_mm_leafterm_s1_a, [(true, 0), (false, 2)], [0, 1, 2, 3], 1, 4);
-mm!(c18_mm_leafterm_s1_b, [(true, 0), (false, 2)], [5, 256, 257, usize::MAX], 1, 4);
-mm!(c18_mm_termleaf_s1_a, [(false, 2), (true, 0)], [0, 1, 2, 3], 1, 4);
-mm!(c18_mm_2term_s1_a, [(false, 1), (false, 3)], [0, 1, 2, 3], 1, 4);
-mm!(c18_mm_2term_s1_b, [(false, 1), (false, 3)], [5, 256, 257, usize::MAX], 1, 4);
-mm!(c18_mm_2term_s0_a, [(false, 2), (false, 4)], [0, 1, 2, 3], 0, 4);
-mm!(c18_mm_3leaf_s1_a, [(true, 0), (true, 0), (true, 0)], [1, 2], 1, 4);
-mm!(c18_mm_3mixed_s2_a, [(false, 2), (true, 0), (false, 3)], [1, 2], 2, 4);
+/// Over-approximating stub for `hash_path` (value havoc). Sound for panic-freedom of the callers
+/// because `hash_path` itself is total (covered by the c18_pv_* harnesses through `verify`), its
+/// arguments are evaluated (and their slicing checked) at the call site, and its result only
+/// flows into node values.
+pub fn hash_path_stub<H: NodeHasher>(
+    _node: Node,
+    _path: &BitSlice<u8, Msb0>,
+    _siblings: impl IntoIterator<Item = Node>,
+) -> Node {
+    kani::any()
+}
+
+
+// Two / three paths with *concrete* claimed depths (one combination per harness: a single
+// 2-path run is ~4 M symex steps / 12 M SAT variables / 20 min, measured). `hash_path` is stubbed.
+macro_rules! m2 {
+    ($name:ident, $kinds:expr, $depths:expr, $nsib:expr) => {
+        #[kani::proof]
+        #[kani::stub(nomt_core::proof::path_proof::hash_path, hash_path_stub)]
+        pub fn $name() {
+            multi_verify_depths::<HavocHasher>(&$kinds, Some(&$depths), $nsib, 4, false)
+        }
+    };
+}
+// terminator that may be a prefix of the next terminator (claimed depths = real depths)
+m2!(c18_m2_term1_term3_valid, [(false, 1), (false, 3)], [1, 3], 1);
+// claimed depth below the bisection point / beyond the path / huge
+m2!(c18_m2_term1_term3_d0, [(false, 1), (false, 3)], [0, 3], 1);
+m2!(c18_m2_term2_leaf_deep, [(false, 2), (true, 0)], [2, 257], 1);
+m2!(c18_m2_2leaf_max, [(true, 0), (true, 0)], [usize::MAX, 2], 2);
+m2!(c18_m2_2leaf_valid, [(true, 0), (true, 0)], [2, 2], 2);
+m2!(c18_m2_leaf_term_short_sibs, [(true, 0), (false, 2)], [3, 2], 0);
+m2!(c18_m3_mixed, [(false, 2), (true, 0), (false, 3)], [2, 3, 3], 2);
+
 // with queries
 mv!(c18_mq_1leaf_s1, [(true, 0)], 1, 4, true);
 mv!(c18_mq_2leaf_s1, [(true, 0), (true, 0)], 1, 4, true);
